@@ -4,6 +4,7 @@ FLOW = "hippolyzer/lib/proxy/http_flow.py"
 PROXY = "hippolyzer/lib/proxy/http_proxy.py"
 CAPS = "hippolyzer/lib/proxy/caps.py"
 REGION = "hippolyzer/lib/proxy/region.py"
+MLOG = "hippolyzer/lib/proxy/message_logger.py"
 
 _FINALLY = ("        finally:\n"
             "            # If someone has taken this request out of the regular callback flow,\n"
@@ -229,6 +230,26 @@ VARIANTS = [
      "old": "SerializedCapData(cap_name=\"FirestormBridge\")", "new": "SerializedCapData(cap_name=\"FirestormBridge\", type=\"Normal\")"},
     {"name": "P R4 bridge tag spells out the default cap type name", "file": PROXY, "expect": "silent",
      "old": "SerializedCapData(cap_name=\"FirestormBridge\")", "new": "SerializedCapData(cap_name=\"FirestormBridge\", type=\"NORMAL\")"},
+    {"name": "R4 log entry strips a header from the flow it wraps", "file": MLOG, "expect": "C15.R4",
+     "old": "        # This was a request the proxy made through itself\n        self.meta[\"Synthetic\"] = flow.request_injected\n",
+     "new": "        # This was a request the proxy made through itself\n        self.meta[\"Synthetic\"] = flow.request_injected\n"
+            "        self.flow.request.headers.pop(\"X-Hippo-Injected\", None)\n"},
+    {"name": "R4 log entry normalises the response body in place", "file": MLOG, "expect": "C15.R4",
+     "old": "        # This was a request the proxy made through itself\n        self.meta[\"Synthetic\"] = flow.request_injected\n",
+     "new": "        # This was a request the proxy made through itself\n        self.meta[\"Synthetic\"] = flow.request_injected\n"
+            "        resp = self.flow.response\n        if resp is not None:\n            resp.content = resp.content or b\"\"\n"},
+    {"name": "P R4 log entry caches a value read from the flow", "file": MLOG, "expect": "silent",
+     "old": "        # This was a request the proxy made through itself\n        self.meta[\"Synthetic\"] = flow.request_injected\n",
+     "new": "        # This was a request the proxy made through itself\n        self.meta[\"Synthetic\"] = flow.request_injected\n"
+            "        url = self.flow.request.url\n        self.meta[\"URL\"] = url\n"},
+    {"name": "R4 cap types become combinable flags", "expect": "C15.R4",
+     "edits": [{"file": CAPS, "old": "class CapType(enum.Enum):\n", "new": "class CapType(enum.Flag):\n"},
+               {"file": REGION, "old": "        self.register_cap(name, cap_url, CapType.PROXY_ONLY)\n",
+                "new": "        self.register_cap(name, cap_url, CapType.PROXY_ONLY | CapType.TEMPORARY)\n"}]},
+    {"name": "P R4 cap types become flags used only as masks", "expect": "silent",
+     "edits": [{"file": CAPS, "old": "class CapType(enum.Enum):\n", "new": "class CapType(enum.Flag):\n"},
+               {"file": CAPS, "old": "        return self == CapType.PROXY_ONLY or self == CapType.WRAPPER\n",
+                "new": "        return bool(self & (CapType.PROXY_ONLY | CapType.WRAPPER))\n"}]},
     {"name": "P R4 positional construction", "file": CAPS, "expect": "silent",
      "old": "            cap_name=self.cap_name,\n            region_addr=", "new": "            self.cap_name,\n            region_addr="},
     {"name": "P R4 `not in` form of a default", "file": FLOW, "expect": "silent",
